@@ -703,9 +703,11 @@ func (check typecheck) conversion(n *node, typ *itype) error {
 		return nil
 	}
 	if isInterface(typ) || !isConstType(typ) {
-		typ = n.typ.defaultType(n.rval, check.scope)
+		return check.convertUntyped(n, n.typ.defaultType(n.rval, check.scope))
 	}
-	return check.convertUntyped(n, typ)
+	// The operand of a constant conversion is left untyped, so that it can be
+	// analysed again: its exact value is converted by the caller.
+	return nil
 }
 
 type param struct {
